@@ -631,6 +631,19 @@ func ruleC13_5(c *Ctx) {
 				}
 				return s
 			}
+			// the compared maps are fresh for every name: allocated inside the loop over the common names, so that no
+			// entry of a previously compared product survives into the next comparison
+			for _, av := range a {
+				if mk, ok := resolve(av, de).(*ssa.MakeMap); ok {
+					inLoop := false
+					for _, l := range rangeLoops(f) {
+						if l.body[de.Block()] && l.body[mk.Block()] && mk.Block() != l.header {
+							inLoop = true
+						}
+					}
+					c.check(inLoop, R, fn, "compared hash map is allocated per name", mk.Pos(), "make inside the loop that compares", "a hash map that is compared per product is allocated once outside the loop and never cleared: algorithm entries of an earlier product leak into the comparison of the next one")
+				}
+			}
 			s0, s1 := src(a[0]), src(a[1])
 			okSrc := (strings.HasPrefix(s0, "p0.Products{") && strings.HasPrefix(s1, "in_toto.RecordArtifacts(")) || (strings.HasPrefix(s1, "p0.Products{") && strings.HasPrefix(s0, "in_toto.RecordArtifacts("))
 			if !okSrc {
